@@ -353,6 +353,48 @@ def run(R, tier):
                             {'signature': sig4, 'options': 'graded=True', 'op': label, 'B': [a_, b_]},
                             f'{label} for the non-simple bivector B = {a_} e12 + {b_} e34 (stored as a whole grade) in Algebra(signature={sig4}): graded mode gives {outs_[True, label]}, '
                             f'default mode {outs_[False, label]}')
+    # ---- graded mode, operands whose coefficients are a mix of sympy symbols, numbers and zeros (any metric): some coefficients of a
+    #      grade of the result vanish identically, the grade is stored whole all the same, and the element is that of the default mode ----
+    for it in range(8 if tier == 'quick' else 100):
+        d = rng.choice((2, 3))
+        sig = [rng.choice((1, -1)) for _ in range(d)] if it % 2 == 0 else [rng.choice((1, -1, 0)) for _ in range(d)]
+        syms_ = list(_sp.symbols('x y z'))
+        def mixed(n_):
+            return [rng.choice([syms_[i_ % 3], 0, 0, 1, syms_[(i_ + 1) % 3] + 1]) for i_ in range(n_)]
+        g1, g2 = rng.choice(((1,), (2,), (1,), (0, 2))), rng.choice(((1,), (1,), (2,)))
+        outs_ = {}
+        vals1 = vals2 = None
+        for graded in (False, True):
+            A_ = algs.make_impl({'sig': sig, 'graded': graded})
+            k1, k2 = A_.indices_for_grades[g1], A_.indices_for_grades[g2]
+            vals1 = vals1 or mixed(len(k1)); vals2 = vals2 or mixed(len(k2))
+            if not any(getattr(v_, 'free_symbols', None) for v_ in vals1 + vals2):
+                vals1[0] = syms_[0]
+            u_ = A_.multivector(keys=tuple(k1), values=list(vals1)); v_ = A_.multivector(keys=tuple(k2), values=list(vals2))
+            for sym_, f_ in (('^', lambda: u_ ^ v_), ('*', lambda: u_ * v_), ('|', lambda: u_ | v_), ('(u ^ v) | v', lambda: (u_ ^ v_) | v_), ('u * v - v * u', lambda: u_ * v_ - v_ * u_)):
+                try:
+                    r_ = f_()
+                    outs_[graded, sym_] = ('ok', {int(k_): _sp.expand(_sp.sympify(x_)) for k_, x_ in zip(r_.keys(), r_.values()) if _sp.expand(_sp.sympify(x_)) != 0},
+                                           tuple(int(k_) for k_ in r_.keys()), tuple(A_.indices_for_grades[r_.grades]) if graded else None)
+                except Exception as e:  # noqa
+                    outs_[graded, sym_] = ('err', f'{type(e).__name__}: {e}'[:100], None, None)
+        for sym_ in ('^', '*', '|', '(u ^ v) | v', 'u * v - v * u'):
+            R.count('graded-mixed-symbolic'); R.case(('graded-mixed', tuple(sig), g1, g2, sym_, str(vals1), str(vals2)), True)
+            d0, g0 = outs_[False, sym_], outs_[True, sym_]
+            if d0[0] != 'ok':
+                continue
+            bad_ = None
+            if g0[0] != 'ok':
+                bad_ = f'raises {g0[1]} in graded mode (default mode: {d0[1]})'
+            elif g0[1] != d0[1]:
+                bad_ = f'graded result {g0[1]} differs from the default-mode result {d0[1]}'
+            elif g0[2] != g0[3]:
+                bad_ = f'graded result stores the keys {g0[2]}, complete grades are {g0[3]}'
+            if bad_:
+                R.violation({'clause': 'differs-under-options', 'graded': True, 'null_generator': 0 in sig, 'mixed': True},
+                            {'signature': sig, 'options': 'graded=True', 'op': sym_, 'grades': [list(g1), list(g2)], 'values': [str(vals1), str(vals2)]},
+                            f'graded mode: {sym_} for u = {vals1} on grades {g1}, v = {vals2} on grades {g2} in Algebra(signature={sig}): {bad_}')
+                break
     # ---- graded sandwich by an even element that is not a versor, 5-D (the result has more grades than the subject) ----
     for it in range(1 if tier == 'quick' else 8):
         sig5 = [1, 1, 1, 1, rng.choice((1, -1))]
